@@ -167,8 +167,9 @@ def gen_root_driver(header_name, em, model, header_text, ri, ctx_override=None):
         A("    o.%s = &VT_%d;" % (field, ti))
     A("    fill_cont(o.container, PAYLOAD);")
     A("}")
-    A("#define SNAP int s_box = box_drops, s_cl = arc_clones, s_dr = arc_drops, s_cs = arc_clone_seq, s_df = arc_drop_seq_first, s_dl = arc_drop_seq_last, s_n = NLOG;")
+    A("#define SNAP int s_box = box_drops, s_cl = arc_clones, s_dr = arc_drops, s_cs = arc_clone_seq, s_df = arc_drop_seq_first, s_dl = arc_drop_seq_last, s_n = NLOG, s_bs = box_drop_seq;")
     A("int main() {")
+    A('    printf("SIZEOF root=%d obj=%%zu cont=%%zu\\n", sizeof(Obj), sizeof(Cont));' % ri)
     ncalls = 0
     for (ti, si, tname, m, rty, callargs) in calls:
         if m.ret == "CONT" and r["inst"] != "Box":
@@ -177,7 +178,7 @@ def gen_root_driver(header_name, em, model, header_text, ri, ctx_override=None):
         ncalls += 1
         A("    { /* %s::%s */" % (tname, m.name))
         A("        int ret_ok = 1; const void *contaddr = nullptr; Rec first = Rec();")
-        A("        int s_box_, s_cl_, s_dr_, s_cs_, s_df_, s_dl_, s_n_;")
+        A("        int s_box_, s_cl_, s_dr_, s_cs_, s_df_, s_dl_, s_n_, s_bs_;")
         A("        {")
         A("            Obj obj; build(obj); reset(); contaddr = (const void *)&obj.container;")
         target = "std::move(obj)" if m.recv == "own" else "obj"
@@ -192,7 +193,7 @@ def gen_root_driver(header_name, em, model, header_text, ri, ctx_override=None):
             inst = "rv.container.instance.instance" if r["inst"] == "Box" else "rv.container.instance"
             vt_ok = " && ".join("rv.%s == obj.%s" % (f, f) for _, f, _ in r["vtables"])
             A("                ret_ok = (%s == (void *)PAYLOAD2) && %s;" % (inst, vt_ok))
-            A("                s_box_ = s_box; s_cl_ = s_cl; s_dr_ = s_dr; s_cs_ = s_cs; s_df_ = s_df; s_dl_ = s_dl; s_n_ = s_n;")
+            A("                s_box_ = s_box; s_cl_ = s_cl; s_dr_ = s_dr; s_cs_ = s_cs; s_df_ = s_df; s_dl_ = s_dl; s_n_ = s_n; s_bs_ = s_bs;")
             A("            }")
         elif isinstance(m.ret, tuple) and m.ret[0].endswith("ptr"):
             A("            %s rv = %s;" % (rty, call))
@@ -204,25 +205,25 @@ def gen_root_driver(header_name, em, model, header_text, ri, ctx_override=None):
             A("                SNAP")
             inst = "rv.container.instance.instance" if m.ret[2] == "Box" else "rv.container.instance"
             A("                ret_ok = (%s == (void *)PAYLOAD2);" % inst)
-            A("                s_box_ = s_box; s_cl_ = s_cl; s_dr_ = s_dr; s_cs_ = s_cs; s_df_ = s_df; s_dl_ = s_dl; s_n_ = s_n;")
+            A("                s_box_ = s_box; s_cl_ = s_cl; s_dr_ = s_dr; s_cs_ = s_cs; s_df_ = s_df; s_dl_ = s_dl; s_n_ = s_n; s_bs_ = s_bs;")
             A("            }")
         else:
             A("            %s rv = %s;" % (rty, call))
             A("            SNAP")
             A("            ret_ok = %s;" % SENT[norm_ty(rty)][1]("rv", SENT[norm_ty(rty)][0](9)))
         if not (m.ret == "CONT" or (isinstance(m.ret, tuple) and not m.ret[0].endswith("ptr"))):
-            A("            s_box_ = s_box; s_cl_ = s_cl; s_dr_ = s_dr; s_cs_ = s_cs; s_df_ = s_df; s_dl_ = s_dl; s_n_ = s_n;")
+            A("            s_box_ = s_box; s_cl_ = s_cl; s_dr_ = s_dr; s_cs_ = s_cs; s_df_ = s_df; s_dl_ = s_dl; s_n_ = s_n; s_bs_ = s_bs;")
         A("            if (NLOG > 0) first = LOG[0];")
         A("        }")
         A('        printf("CALL w=%s root=%d known_params=1 nlog=%%d", s_n_);' % (w, ri))
         A('        if (s_n_ > 0) printf(" [root=%d trait=%d slot=%d cont_ok=%d args_ok=%d seq=%d]", first.root, first.trait, first.slot, first.cont == contaddr || first.cont == (const void *)PAYLOAD, first.args_ok, first.seq);')
-        A('        printf(" ret_ok=%d box_drops=%d arc_clones=%d arc_drops=%d clone_seq=%d drop_first=%d drop_last=%d after_box=%d after_clones=%d after_arc=%d\\n", ret_ok, s_box_, s_cl_, s_dr_, s_cs_, s_df_, s_dl_, box_drops, arc_clones, arc_drops);')
+        A('        printf(" ret_ok=%d box_drops=%d arc_clones=%d arc_drops=%d clone_seq=%d drop_first=%d drop_last=%d after_box=%d after_clones=%d after_arc=%d box_seq=%d\\n", ret_ok, s_box_, s_cl_, s_dr_, s_cs_, s_df_, s_dl_, box_drops, arc_clones, arc_drops, s_bs_);')
         A("    }")
     # destructor = the C++ drop helper
     ncalls += 1
     A("    {")
     A("        { Obj obj; build(obj); reset(); }")
-    A('        printf("CALL w=drop root=%d known_params=1 nlog=%%d ret_ok=1 box_drops=%%d arc_clones=%%d arc_drops=%%d clone_seq=%%d drop_first=%%d drop_last=%%d after_box=%%d after_clones=%%d after_arc=%%d\\n", NLOG, box_drops, arc_clones, arc_drops, arc_clone_seq, arc_drop_seq_first, arc_drop_seq_last, box_drops, arc_clones, arc_drops);' % ri)
+    A('        printf("CALL w=drop root=%d known_params=1 nlog=%%d ret_ok=1 box_drops=%%d arc_clones=%%d arc_drops=%%d clone_seq=%%d drop_first=%%d drop_last=%%d after_box=%%d after_clones=%%d after_arc=%%d box_seq=%%d\\n", NLOG, box_drops, arc_clones, arc_drops, arc_clone_seq, arc_drop_seq_first, arc_drop_seq_last, box_drops, arc_clones, arc_drops, box_drop_seq);' % ri)
     A("    }")
     A('    printf("DONE calls=%d\\n");' % ncalls)
     A("    return 0;\n}")
